@@ -43,7 +43,7 @@ abbrev IndexMap := List (Nat × List (List Nat))
 structure TypeMap where
   isLocal : Option Bool
   map : IndexMap
-deriving Repr, BEq
+deriving Repr, BEq, DecidableEq
 
 /-- `if index not in self._map.keys(): self._map[index] = []` then
 `self._map[index].append(copy(indices))` -/
@@ -162,5 +162,28 @@ def taggerYield (s : Setting) (fs : Factors) (ty : String) (leaves : List Ident)
   match yieldAll s fs ty leaves with
   | .error e => .error e
   | .ok l => .ok (dedupe l)
+
+/-! ### the shipped factor-set files as data
+(`jellyfysh/config_files/factor_set_files/*.txt`; the correspondence run compares this table with
+the files of the tree under test on every run, so the `decide`d facts about it in
+`JF/Props/C10.lean` are facts about the current files) -/
+
+/-- name, number of point masses per composite object the file is written for, lines -/
+def shipped : List (String × Nat × List Line) := [
+  ("factor_set_coulomb_atoms.txt", 1, [⟨[0, 1], "Coulomb"⟩]),
+  ("factor_set_dipoles_atomic.txt", 2,
+    [⟨[0, 1], "Harmonic"⟩, ⟨[0, 3], "Repulsive"⟩, ⟨[1, 2], "Repulsive"⟩, ⟨[0, 2], "Coulomb"⟩,
+     ⟨[0, 3], "Coulomb"⟩, ⟨[1, 2], "Coulomb"⟩, ⟨[1, 3], "Coulomb"⟩]),
+  ("factor_set_dipoles_dipole.txt", 2,
+    [⟨[0, 1], "Harmonic"⟩, ⟨[0, 3], "Repulsive"⟩, ⟨[1, 2], "Repulsive"⟩, ⟨[0, 1, 2, 3], "Coulomb"⟩]),
+  ("factor_set_hard_disk_dipoles.txt", 2,
+    [⟨[0, 1], "Dipole"⟩, ⟨[0, 2], "Sphere"⟩, ⟨[0, 3], "Sphere"⟩, ⟨[1, 2], "Sphere"⟩, ⟨[1, 3], "Sphere"⟩]),
+  ("factor_set_water.txt", 3,
+    [⟨[0, 1], "Harmonic"⟩, ⟨[1, 2], "Harmonic"⟩, ⟨[1, 4], "LennardJones"⟩, ⟨[0, 1, 2], "Bending"⟩,
+     ⟨[0, 1, 2, 3, 4, 5], "Coulomb"⟩]),
+  ("factor_set_water_atomic.txt", 3,
+    [⟨[0, 1], "Harmonic"⟩, ⟨[1, 2], "Harmonic"⟩, ⟨[1, 4], "LennardJones"⟩, ⟨[0, 1, 2], "Bending"⟩,
+     ⟨[0, 3], "Coulomb"⟩, ⟨[0, 4], "Coulomb"⟩, ⟨[0, 5], "Coulomb"⟩, ⟨[1, 3], "Coulomb"⟩, ⟨[1, 4], "Coulomb"⟩,
+     ⟨[1, 5], "Coulomb"⟩, ⟨[2, 3], "Coulomb"⟩, ⟨[2, 4], "Coulomb"⟩, ⟨[2, 5], "Coulomb"⟩])]
 
 end JF.FactorMaps
